@@ -237,6 +237,10 @@ PROPS["C11"] = dict(
         dict(name="trace", kind="trace", module="QuantileCITrace.tla", cfg="QuantileCITrace.cfg",
              record_args={"quick": ["-n", 80, "-max", 12, "-qden", 16, "-levels", 40], "thorough": ["-n", 100000, "-max", 30, "-qden", 40, "-levels", 200]},
              shards={"quick": 8, "thorough": 16}, timeout={"quick": 900, "thorough": 7000}),
+        # the last sizes of the exact branch (the switch to the normal approximation happens above n = 30) in every tier
+        dict(name="trace30", kind="trace", module="QuantileCITrace.tla", cfg="QuantileCITrace.cfg",
+             record_args={"quick": ["-n", 100000, "-min", 29, "-max", 30, "-qden", 8, "-levels", 20], "thorough": ["-n", 100000, "-min", 26, "-max", 30, "-qden", 24, "-levels", 100]},
+             shards={"quick": 8, "thorough": 16}),
         dict(name="trace16", kind="trace", module="QuantileCITrace.tla", cfg="QuantileCITrace.cfg", tiers=["thorough"],
              record_args=["-n", 100000, "-max", 13, "-qden", 16, "-levels", 200], shards=16),
         dict(name="traceN", kind="trace", module="QuantileCITrace.cfg".replace(".cfg", ".tla"), cfg="QuantileCITrace.cfg",
